@@ -236,6 +236,11 @@ def world_plans(draw, tier):
         # write-point-directed schedules derived from a profiling run
         knobs['sweep'] = draw(st.sampled_from(
             [0, 0, 0, 6, 12] if tier == 'quick' else [0, 0, 12, 24, 48]))
+        if draw(st.integers(0, 19 if tier == 'quick' else 5)) == 0:
+            # single pre-emption at evenly spaced yield points of one thread
+            knobs['stride'] = {'thread': draw(st.integers(0, 3)), 'other': draw(st.integers(0, 3)),
+                               'runs': draw(st.sampled_from([20, 40] if tier == 'quick' else [60, 150, 400])),
+                               'offset': draw(st.integers(0, 500))}
     return {'specs': specs, 'setup': setup, 'threads': threads, 'tape': tape, 'knobs': knobs}
 
 
